@@ -207,7 +207,10 @@ def run_product(st, opts):
     decay = cfg["data"] == "decay"
     problems, stats = [], {"behaviours": 1, "calls": 0}
     use_cpp = cfg["backend"] == "cpp"
-    if op in ("fast_matvec", "amen_mv"):
+    if cfg["data"] == "flat":         # (operands built below; a dense 160000 x 160000 operator is never formed)
+        ops, names, ref = [None, None], (["A", "x"] if op == "fast_matvec" else ["x", "y"]), None
+        gshape, gkind, want = N, "tt", ("tt", N, [])
+    elif op in ("fast_matvec", "amen_mv"):
         A = rand_tt(tt, list(zip(M, N)), cfg["r"], gen, dt, decay)
         x = rand_tt(tt, N, cfg["r"], gen, dt, decay)
         ref = (dense_op(A) @ project.dense(x.cores).reshape(-1)).reshape(M)
@@ -229,6 +232,15 @@ def run_product(st, opts):
         ops, names = [x, y], ["x", "y"]
         gshape, gkind = N, "tt"
         want = ("tt", N, [])
+    if cfg["data"] == "flat":
+        # one dominant singular value and a flat tail of n - 20 equal ones at 0.9 x the per-bond allowance of the final sweep (eps / sqrt d)
+        n = N[0]
+        sv = torch.full((n,), 0.0, dtype=dt); sv[0] = 1.0; sv[1:n - 19] = 0.9 * eps / math.sqrt(2.0)
+        U = torch.linalg.qr(torch.randn(n, n, dtype=dt, generator=gen))[0]
+        V = torch.linalg.qr(torch.randn(n, n, dtype=dt, generator=gen))[0]
+        F = tt.TT([(U * sv).reshape(1, n, n).contiguous(), V.t().reshape(n, n, 1).contiguous()])
+        ref = project.dense(F.cores)
+        ops = [tt.eye(N, dtype=dt), F] if op == "fast_matvec" else [tt.ones(N, dtype=dt), F]
     if cfg["data"] == "zero":
         # the second operand is exactly zero: the exact product is the zero tensor
         ops[1] = tt.zeros(list(zip(N, K)) if op == "amen_mm" else N, dtype=dt)
